@@ -206,4 +206,4 @@ def run(ctx):
         jobs = [(h, 2) for h in n1] + [(h, 1) for h in n2] + [(h, 1) for h in big]
     else:
         jobs = [(h, 3) for h in n1] + [(h, 2) for h in n2] + [(h, 1) for h in big]
-    ctx.explore_many(jobs)
+    ctx.explore_many(jobs, cap=3_000_000 if ctx.tier == "quick" else 80_000_000)
